@@ -21,6 +21,7 @@ import (
 	"time"
 
 	"verifh/ev"
+	"verifh/fx"
 )
 
 type propCfg struct {
@@ -60,6 +61,21 @@ func main() {
 }
 
 func run() int {
+	if len(os.Args) == 2 && os.Args[1] == "warm" {
+		// used by setup.sh: create the base build cache
+		scratch, err := os.MkdirTemp(os.Getenv("VERIF_TMP"), "verif-warm-")
+		if err != nil {
+			fmt.Fprintln(os.Stderr, err)
+			return 2
+		}
+		defer os.RemoveAll(scratch)
+		guardDefaultCache()
+		if _, err := ensureBaseCache(ev.VerifDir(), ev.RepoDir(), scratch); err != nil {
+			fmt.Fprintln(os.Stderr, err)
+			return 2
+		}
+		return 0
+	}
 	if len(os.Args) < 3 {
 		fmt.Fprintln(os.Stderr, "usage: vcheck <ID> quick|thorough [--replay file]")
 		return 2
@@ -92,6 +108,15 @@ func run() int {
 		return 2
 	}
 	defer os.RemoveAll(scratch)
+
+	// 0. build caches: the default cache is trimmed when it grew large; a base cache with the standard library,
+	// the runtime library and the fixture packages seeds the private caches of the shards
+	guardDefaultCache()
+	baseCache, err := ensureBaseCache(verifDir, repo, scratch)
+	if err != nil {
+		fmt.Printf("INFRA: %v\n", err)
+		return 2
+	}
 
 	// 1. build the check binary from the current working tree of the repository
 	bin := filepath.Join(scratch, "checks.test")
@@ -163,6 +188,7 @@ func run() int {
 				"VERIF_DIR="+verifDir,
 				"VERIF_REPLAY="+replay,
 				"VERIF_DEADLINE="+strconv.FormatInt(time.Now().Add(timeout).Unix(), 10),
+				"VERIF_GOCACHE_BASE="+baseCache,
 				"TMPDIR="+filepath.Join(dir, "tmp"),
 			)
 			logf, _ := os.Create(filepath.Join(dir, "log"))
@@ -382,4 +408,52 @@ func oneLine(s string) string {
 		s = s[:400] + "…"
 	}
 	return s
+}
+
+// guardDefaultCache empties the default Go build cache when it exceeds 6 GB.
+func guardDefaultCache() {
+	out, err := exec.Command("go", "env", "GOCACHE").Output()
+	if err != nil {
+		return
+	}
+	dir := strings.TrimSpace(string(out))
+	if dir == "" {
+		return
+	}
+	du, err := exec.Command("du", "-sm", dir).Output()
+	if err != nil {
+		return
+	}
+	var mb int
+	fmt.Sscanf(string(du), "%d", &mb)
+	if mb > 6000 {
+		_ = exec.Command("go", "clean", "-cache").Run()
+	}
+}
+
+// ensureBaseCache returns the directory of the base build cache, creating it when missing. It is keyed by
+// the Go version and the pinned runtime version, and holds nothing of the repository under test.
+func ensureBaseCache(verifDir, repo, scratch string) (string, error) {
+	gomod, _ := os.ReadFile(filepath.Join(repo, "go.mod"))
+	gover, _ := exec.Command("go", "version").Output()
+	key := fmt.Sprintf("%016x", ev.HashStr(string(gover), string(gomod), fx.CatalogFingerprint()))
+	base := filepath.Join(verifDir, ".cache", "gobase-"+key)
+	if _, err := os.Stat(filepath.Join(base, "ready")); err == nil {
+		return base, nil
+	}
+	// stale bases of other keys are removed
+	old, _ := filepath.Glob(filepath.Join(verifDir, ".cache", "gobase-*"))
+	for _, o := range old {
+		_ = os.RemoveAll(o)
+	}
+	tmp := base + ".tmp"
+	_ = os.RemoveAll(tmp)
+	if err := fx.WarmBaseCache(tmp, filepath.Join(scratch, "warm"), repo); err != nil {
+		return "", err
+	}
+	_ = os.WriteFile(filepath.Join(tmp, "ready"), []byte("ok"), 0o644)
+	if err := os.Rename(tmp, base); err != nil {
+		return "", err
+	}
+	return base, nil
 }
